@@ -180,7 +180,8 @@ def build(shape, nrows=3, salt=0, style=None, start=0):
         add('Loop time of 0.%d on 1 procs for %d steps with 4000 atoms' % (417 + b, steps[-1] - steps[0]), 'loop', b)
         add('', 'post', b)
         if banner == 'new':
-            add('Performance: 70.123 ns/day, 0.342 hours/ns, 811.609 timesteps/s', 'post', b)
+            if not minimize:                # finish.cpp prints the ns/day metric for MD runs only
+                add('Performance: 70.123 ns/day, 0.342 hours/ns, 811.609 timesteps/s', 'post', b)
             add('99.5% CPU use with 1 MPI tasks x 1 OpenMP threads', 'post', b)
             add('', 'post', b)
         if minimize:
